@@ -34,6 +34,9 @@ func NewResponse(handlerName OperationName, status string, response *specificati
 			if err != nil {
 				return nil, nil, fmt.Errorf("schema for %q content response: %w", c.Name, err)
 			}
+			if _, isSlice := s.Type.(SliceType); s.Ref == nil && !s.IsCustom() && !isSlice && s.IsNullable() && s.Kind() != SchemaKindObject {
+				return nil, nil, fmt.Errorf("schema for %q content response: a nullable body of a primitive type is not supported", c.Name)
+			}
 			imports = append(imports, ims...)
 
 			r.ContentJSON = Just(ResponseContentSchema{
